@@ -68,7 +68,18 @@ impl Outcome {
         match self {
             Outcome::Ok(b) => format!("Ok({:?})", String::from_utf8_lossy(b)),
             Outcome::Err { msg, accepted } => {
-                format!("Err({:?}; accepted {:?})", msg.lines().next().unwrap_or(""), String::from_utf8_lossy(accepted))
+                // the whole message on one line: differences are often in the trace lines
+                let m: Vec<&str> = msg.lines().map(|l| l.trim()).filter(|l| !l.is_empty()).collect();
+                let mut m = m.join(" / ");
+                if m.len() > 400 {
+                    let mut cut = 400;
+                    while !m.is_char_boundary(cut) {
+                        cut -= 1;
+                    }
+                    m.truncate(cut);
+                    m.push('…');
+                }
+                format!("Err({:?}; accepted {:?})", m, String::from_utf8_lossy(accepted))
             }
             Outcome::Panic(m) => format!("Panic({m:?})"),
         }
@@ -107,6 +118,7 @@ pub struct SinkReport {
     pub bytes_after_hard: usize,
     pub flushes: usize,
     pub flushes_after_hard: usize,
+    pub calls_after_first_eintr: usize,
     pub stats: SinkStats,
 }
 
@@ -123,6 +135,7 @@ pub fn render_streamed(t: &liquid::Template, globals: &dyn liquid::ObjectView, p
         bytes_after_hard: sink.bytes_after_hard,
         flushes: sink.flushes,
         flushes_after_hard: sink.flushes_after_hard,
+        calls_after_first_eintr: sink.calls_after_first_eintr,
         stats: sink.stats.clone(),
     };
     let accepted = std::mem::take(&mut sink.accepted);
